@@ -138,6 +138,15 @@ func propC14(c *Ctx) {
 	for k := 0; k < 20; k++ {
 		strs = append(strs, string(c.randBytes(c.rng.Intn(400))))
 	}
+	// long tokens made of one kind of invalid / unusual byte, inside sentences of every acceptable count
+	for _, b := range []string{"\x80", "\xbf", "\xc0", "\xe0", "\xf8", "\xff", "\u0301", "\u3099", "\U0001F600"} {
+		for _, ln := range []int{1, 31, 63, 64, 65, 66, 129, 300} {
+			for _, wc := range []int{12, 15, 24} {
+				tok := strings.Repeat(b, ln)
+				strs = append(strs, tok+strings.Repeat(" abandon", wc-1), strings.Repeat("abandon ", wc-1)+tok)
+			}
+		}
+	}
 	big := 1 << 20
 	if !c.quick {
 		big = 8 << 20
@@ -154,14 +163,9 @@ func propC14(c *Ctx) {
 			}
 			bad("hostile-string", fmt.Sprintf("chk %d <%d bytes %.40q>", l, len(s), s), impl)
 		}
-		var impl string
-		if len(s) > 4096 {
-			impl = implSeed(s, s[:100])
-			r.count("huge-string")
-		} else {
-			impl = c.seed("hostile-string:seed", s, s)
-		}
-		bad("hostile-string", fmt.Sprintf("seed <%d bytes %.40q>", len(s), s), impl)
+		// MnemonicToSeed: only "returns normally" matters here (its value is C04's business)
+		r.count("hostile-string:seed")
+		bad("hostile-string", fmt.Sprintf("seed <%d bytes %.40q>", len(s), s), implSeed(s, s[:min(len(s), 100)]))
 	}
 	r.sample("chk -1 'abandon ... about' -> err other (word not found); lstr -9223372036854775808 -> Language(-9223372036854775808)")
 }
